@@ -74,6 +74,12 @@ def demo_dir(wt, src, patch_files):
 
 
 def cmd_import(srcroot, only=()):
+    tag = ""
+    only = list(only)
+    if "--tag" in only:
+        i = only.index("--tag")
+        tag = only[i + 1]
+        del only[i:i + 2]
     os.makedirs(SEEDED, exist_ok=True)
     for prop in sorted(os.listdir(srcroot)):
         if only and prop not in only:
@@ -86,7 +92,7 @@ def cmd_import(srcroot, only=()):
             patch = os.path.join(src, "patch.diff")
             if not os.path.exists(patch) or os.path.getsize(patch) == 0:
                 continue
-            sid = "%s-%s" % (prop, m)
+            sid = "%s-%s%s" % (prop, tag, m)
             dst = os.path.join(SEEDED, sid)
             if os.path.exists(os.path.join(dst, "confirm.json")):
                 continue
